@@ -141,6 +141,13 @@ def programs(tier):
     for ch, code in [('a', 97), (' ', 32), ('\\n', 10), ('\\t', 9), ('\\0', 0), ('\\\\', 92), ("\\'", 39), ('"', 34), ('/', 47), ('*', 42), ('#', 35), ('\\f', 12), ('\\v', 11), ('\\a', 7), ('\\b', 8), ('\\r', 13), ('@', 64)]:
         P.append(('char/%s' % ch, "const char k = '%s';\nvoid main() {}\n" % ch, [('k', 'Value(Int(%d))' % code)]))
         P.append(('char-stmt/%s' % ch, "char c;\nvoid main() { c = '%s'; }\n" % ch, []))
+    # a macro whose name also occurs INSIDE a literal: literals are not subject to macro replacement
+    for mname, val in (('A', '1'), ('AB', '7'), ('x', '66')):
+        txt = '%s and %s, (%s)' % (mname, mname, mname)
+        P.append(('macro-in-string/%s' % mname, '#define %s %s\nconst char s[] = "%s";\nchar v;\nvoid main() { v = %s; }\n' % (mname, val, txt, mname), [('s', ref_decode(txt) + [0])]))
+        P.append(('macro-in-string-arg/%s' % mname, '#define %s %s\nchar *g1;\nvoid f(char *p) { g1 = p; }\nvoid main() { f("%s"); }\n' % (mname, val, txt), [('cctmp0', ref_decode(txt) + [0])]))
+        if len(mname) == 1:
+            P.append(('macro-in-char/%s' % mname, "#define %s %s\nconst char k = '%s';\nvoid main() {}\n" % (mname, val, mname), [('k', 'Value(Int(%d))' % ord(mname))]))
     return P
 
 
